@@ -23,11 +23,11 @@ fi
 rm -rf $OUT/demo; mkdir -p $OUT/demo
 [ -d demo_seed ] && rsync -a --exclude pigeon --exclude '*.test' --exclude 'parser.go' --exclude 'out_*' demo_seed/ $OUT/demo/ 
 [ -f SEEDED.md ] && cp SEEDED.md $OUT/SEEDED.md
-cd /verif
+cd ${VERIF_RUN_DIR:-/verif}
 for c in "$@"; do
   s=$(date +%s)
   VERIF_REPO=$WT ./check $c --tier quick > $OUT/check_$c.log 2>&1; rc=$?
   echo "== check $c on the changed tree: exit $rc ($(( $(date +%s)-s ))s) $(grep -c '^VIOLATION' $OUT/check_$c.log) VIOLATION lines"
   grep "^VIOLATION" $OUT/check_$c.log | head -2
 done
-rm -rf /verif/replays
+rm -rf ${VERIF_RUN_DIR:-/verif}/replays
